@@ -234,6 +234,15 @@ def _run_case(case, ctx):
     rank = decomp.pick_rank(rs, algo, data)
     order = len(data["shape"]) if data["kind"] == "tensor" else 3
     which, opts = decomp.option_sets(rs, algo, order)
+    if algo == "parafac2" and rs.rand() < 0.35:
+        # non-negativity on C but not on A, line search on, noisy data with exact zeros in C, enough sweeps for accepted jumps:
+        # an extrapolated point must be made feasible before its error is accepted
+        data = decomp.make_data(rs, algo, "float64", cls="sparseC-noisy")
+        rank = decomp.pick_rank(rs, algo, data)
+        which = "nn_modes-C-only+linesearch"
+        opts = {"init": gen.choice(rs, ["random", "svd"]), "linesearch": True, "n_iter_parafac": int(gen.choice(rs, [2, 5])), "nn_modes": gen.choice(rs, [[2], [1, 2]])}
+        if opts["init"] == "svd" and data["slices"][0].shape[1] < rank:
+            opts["init"] = "random"
     if algo == "parafac" and which == "sparsity":
         which, opts = "plain", {"init": opts.get("init", "svd")}
     if algo == "nn_parafac_hals" and which == "sparsity":
@@ -241,7 +250,7 @@ def _run_case(case, ctx):
     if algo == "cmtf":
         rank = min(rank, min(data["shape"][0]), data["shape"][1][1])
     seed = int(rs.randint(0, 2 ** 31 - 1))
-    K = 10 if "linesearch" in which else 6
+    K = (14 if which == "nn_modes-C-only+linesearch" else 10) if "linesearch" in which else 6
     user_init = None
     if algo == "tucker" and rs.rand() < 0.3:
         # complex-valued data: HOOI must use conjugate transposes throughout
